@@ -589,8 +589,16 @@ impl<'tera> VirtualMachine<'tera> {
                     state.blocks.push((block_name, block_lineage, 0));
                     let old_block_name = state.current_block_name.replace(block_name);
                     let res = if state.capture_block == Some(block_name.as_str()) {
+                        // The block can sit in a filter section or a `set` block: render it with
+                        // the capture stack put aside so its text ends up in `buf`, then hand the
+                        // text on to the capture it belongs to
                         let mut buf = Vec::with_capacity(256);
+                        let old_capture_buffers = std::mem::take(&mut state.capture_buffers);
                         let r = self.interpret(state, &mut buf);
+                        state.capture_buffers = old_capture_buffers;
+                        if let Some(captured) = state.capture_buffers.last_mut() {
+                            captured.extend_from_slice(&buf);
+                        }
                         state.block_buffer = buf;
                         r
                     } else {
